@@ -239,3 +239,92 @@ Proof.
                       queue_first_set_tcp queue_first_step mss Hm).
 Qed.
 End QueueFirst.
+
+(* ---------- the same frame for the receive side: forwarding the acknowledgement ---------- *)
+Definition rxf (t : tcp) : Z * list (Z * packet) * list packet := (t_next_in t, t_reorder t, t_inq t).
+Definition same_rx (w w' : net) : Prop := forall s, rxf (get_tcp w' s) = rxf (get_tcp w s).
+
+Lemma same_rx_refl w : same_rx w w.
+Proof. intros s. reflexivity. Qed.
+Lemma same_rx_trans a b c : same_rx a b -> same_rx b c -> same_rx a c.
+Proof. intros H1 H2 s. rewrite (H2 s). apply H1. Qed.
+
+Lemma packet_dropped_rx v a p w : same_rx w (fst (tcp_packet_dropped v a p w)).
+Proof.
+  unfold tcp_packet_dropped. destruct (t_chan (get_tcp w a)) as [ci|].
+  2:{ destruct (d11a_drop_guard v); cbn [fst]; apply same_rx_refl. }
+  set (t1 := if d8_drop_unaccounts v then _ else _).
+  assert (rxf t1 = rxf (get_tcp w a)) as E1.
+  { unfold t1. destruct (d8_drop_unaccounts v); [|reflexivity].
+    destruct (outst_find _ _); [|reflexivity]. destruct (get_tcp w a); reflexivity. }
+  set (t2 := t1 <| t_outgoing := _ |>).
+  assert (rxf t2 = rxf (get_tcp w a)) as F1 by (rewrite <- E1; unfold t2; destruct t1; reflexivity).
+  destruct ((0 <? t_last_drop t2) && _); cbn [fst]; intros s; rewrite get_tcp_set_tcp; destruct (s =? a) eqn:E; try reflexivity;
+    apply Z.eqb_eq in E; subst s; [exact F1|rewrite <- F1; destruct t2; reflexivity].
+Qed.
+
+Lemma run_drop_rx v p w : same_rx w (fst (run_drop v p w)).
+Proof.
+  unfold run_drop. destruct (p_drop p) as [[a f|id]|]; try (cbn [fst]; apply same_rx_refl).
+  destruct (d11b_drop_via_fwd v).
+  - destruct (mget SNone (w_sinks w) f) as [| | | | |[[a'|u]|]]; try (cbn [fst]; apply same_rx_refl). apply packet_dropped_rx.
+  - destruct (existsb _ _); [cbn [fst]; apply same_rx_refl|apply packet_dropped_rx].
+Qed.
+
+Lemma fold_without_forward_rx v f now h : forall outs w0 cs, Forall no_forward outs ->
+  same_rx w0 (fst (fold_left (fwd_step v f now h) outs (w0, cs))).
+Proof.
+  induction outs as [|o outs IH]; intros w0 cs F; [apply same_rx_refl|].
+  inversion F as [|? ? Ho Ft]; subst. cbn [fold_left].
+  destruct o as [t k|k|x|x]; try contradiction.
+  - apply IH. exact Ft.
+  - apply IH. exact Ft.
+  - assert (fwd_step v f now h (w0, cs) (QDrop x) = (fst (run_drop v x w0), cs ++ snd (run_drop v x w0))) as E
+      by (unfold fwd_step; destruct (run_drop v x w0); reflexivity).
+    rewrite E. eapply same_rx_trans; [apply run_drop_rx|apply IH; exact Ft].
+Qed.
+
+Theorem forward_into_a_queue_keeps_receive_state v f now p w h rest q :
+  p_hops p = h :: rest -> mget SNone (w_sinks w) h = SQueue q ->
+  same_rx w (fst (forward v (S f) now p w)).
+Proof.
+  intros Hh Hq. cbn [forward]. rewrite Hh, Hq.
+  pose proof (qinc_never_forwards now (set_hops p rest) q) as NF.
+  destruct (qinc now (set_hops p rest) q) as [q' outs]. cbn [snd] in NF.
+  change (fold_left _ outs (set_sink w h (SQueue q'), [])) with (fold_left (fwd_step v f now h) outs (set_sink w h (SQueue q'), [])).
+  eapply same_rx_trans; [|apply fold_without_forward_rx; exact NF].
+  intros s. unfold set_sink, get_tcp. destruct w; reflexivity.
+Qed.
+
+Corollary cfwd_into_a_queue_keeps_receive_state v now p w h rest q :
+  p_hops p = h :: rest -> mget SNone (w_sinks w) h = SQueue q ->
+  same_rx w (fst (cfwd (mkcx v now) p w)).
+Proof. intros Hh Hq. exact (forward_into_a_queue_keeps_receive_state v 63 now p w h rest q Hh Hq). Qed.
+
+(* incoming_packet computes rx_arrive on the socket's OWN receive state when the
+   acknowledgement's route starts with a queue: nothing about the network is assumed *)
+Theorem tcp_incoming_is_rx_arrive_on_queue_first_routes v now s p w ci h rest q :
+  p_type p = PPayload \/ p_type p = PError -> t_chan (get_tcp w s) = Some ci ->
+  chan_hops (get_chan w ci) (remote_idx (get_chan w ci) (t_bound (get_tcp w s))) = h :: rest ->
+  mget SNone (w_sinks w) h = SQueue q ->
+  let cx := mkcx v now in
+  let r' := rx_arrive (rx_of (get_tcp w s)) p in
+  exists w1 c1 t1,
+    rx_of t1 = rx_of (get_tcp w s) /\ get_tcp w1 s = t1 /\
+    let t' := t1 <| t_next_in := rx_next r' |> <| t_inq := rx_inq r' |> <| t_reorder := rx_ro r' |> in
+    tcp_incoming cx s p w =
+      if p_seq p =? t_next_in (get_tcp w s)
+      then (fst (tcp_maybe_wakeup_reader cx s (set_tcp w1 s t')), c1 ++ snd (tcp_maybe_wakeup_reader cx s (set_tcp w1 s t')))
+      else (set_tcp w1 s t', c1).
+Proof.
+  intros Hty Hc Hh Hq. cbv zeta.
+  pose proof (tcp_incoming_is_rx_arrive (mkcx v now) s p w ci Hty Hc) as E. cbv zeta in E.
+  set (ack := mk_packet PAck 0 [] ep_none 20 _ None (p_seq p) None) in E.
+  assert (p_hops ack = h :: rest) as Ha by exact Hh.
+  pose proof (cfwd_into_a_queue_keeps_receive_state v now ack w h rest q Ha Hq s) as R.
+  set (fw := cfwd (mkcx v now) ack w) in *. clearbody fw.
+  exists (fst fw), (snd fw), (get_tcp (fst fw) s).
+  unfold rxf in R. injection R as R1 R2 R3.
+  split; [unfold rx_of; rewrite R1, R2, R3; reflexivity|]. split; [reflexivity|].
+  rewrite E. unfold rx_of. rewrite R1, R2, R3. reflexivity.
+Qed.
